@@ -66,6 +66,39 @@ def run(ctx):
         cid = 'v%d' % i
         cases.append({'id': cid, 'text': prog, 'lit': lit, 'shown': shown, 'rendered': rendered,
                       'line': 'run %s %s %s %s' % (cid, hexf(prog), hexf(vc.GLOBALS), hexf('2000'))})
+    # literals at the lower edge of single precision: below the smallest normal value (1.17549e-38) the nearest
+    # single-precision value is a subnormal number or zero, never NaN (oracle only: the model keeps decimals exactly)
+    import struct
+    er = ctx.rng.fork('edge-literals')
+    for i in range(60 if quick else 1500):
+        mant = 1 + er.below(99999)
+        exp = -(37 + er.below(12)) - len(str(mant)) + 1
+        text = '%d%s-%d' % (mant, er.choice(['e', 'E']), -exp)
+        if er.chance(1, 4):
+            text = '-' + text
+        f32 = struct.unpack('f', struct.pack('f', float(text)))[0]
+        want = '%g' % f32
+        want = {'-0': '-0', '0': '0'}.get(want, want)
+        prog = ('g1 = %s; gx = str g1; tr = [g1 > 0, g1 < 0, g1 == 0]' % text).encode()
+        cid = 'u%d' % i
+        sign = '[true,false,false]' if f32 > 0 else '[false,true,false]' if f32 < 0 else '[false,false,true]'
+        cases.append({'id': cid, 'text': prog, 'lit': text.encode(), 'shown': None, 'rendered': None, 'edge': (want, sign),
+                      'line': 'run %s %s %s %s' % (cid, hexf(prog), hexf(vc.GLOBALS), hexf('2000'))})
+    # two round trips in one VM on values that differ in the case of their letters only: each text denotes its own value
+    pr = ctx.rng.fork('casepairs')
+    for i in range(150 if quick else 3000):
+        word = ''.join(pr.choice('abcXYZ qR"\'1') for _ in range(1 + pr.below(8))) + pr.choice('abcdEFGH')
+        other = word.swapcase()
+        la = ('"' + word.replace('"', '""') + '"').encode('latin-1')
+        lb = ('"' + other.replace('"', '""') + '"').encode('latin-1')
+        if pr.chance(1, 3):
+            la, lb = b'[' + la + b', 1]', b'[' + lb + b', 1]'
+        elif pr.chance(1, 3):
+            la, lb = b'{ hint ' + la + b' }', b'{ hint ' + lb + b' }'
+        prog = b'g1 = ' + la + b'; gx = str g1; g2 = call compile gx; gy = ' + lb + b'; gx = str gy; gz = call compile gx; tr = [g1 isEqualTo g2, gy isEqualTo gz, g1 isEqualTo gy]'
+        cid = 'w%d' % i
+        cases.append({'id': cid, 'text': prog, 'lit': la + b' / ' + lb, 'shown': None, 'rendered': None, 'pair': True,
+                      'line': 'run %s %s %s %s' % (cid, hexf(prog), hexf(vc.GLOBALS), hexf('2000'))})
     # pretty printer: expression / statement trees, compared through their instruction listings
     eg = exprgen.ExprGen(ctx.rng.fork('pretty'), pools, max_depth=4)
     pcases = []
@@ -106,9 +139,14 @@ def run(ctx):
         bad = None
         if o is None or o['res'] != 'empty' or o['err'] != '':
             bad = {'expected': 'str / compile / call succeed', 'implementation': (got or '')[:300]}
+        elif c.get('edge'):
+            want, sign = c['edge']
+            if o['tr'] != sign or (unesc(o['g1']).decode('latin-1') != want and float(want) != 0):
+                bad = {'expected': 'the literal denotes the nearest single-precision value %s (sign tests %s)' % (want, sign),
+                       'implementation': {'value': o['g1'][:100], 'sign_tests': o['tr']}}
         elif o['g1'] != o['g2']:
             bad = {'expected': 'value compiled from str equals the original (instruction for instruction for code)', 'original': o['g1'][:300], 'recompiled': o['g2'][:300], 'str': o['gx'][:300]}
-        elif o['tr'] != '[true]':
+        elif o['tr'] != ('[true,true,false]' if c.get('pair') else '[true]'):
             bad = {'expected': 'original isEqualTo recompiled', 'implementation': o['tr']}
         elif c['shown'] is not None and unesc(o['gx']) != b'"' + c['shown'].replace(b'"', b'""') + b'"':
             bad = {'expected_str': c['shown'].decode('latin-1'), 'implementation': o['gx'][:300]}
@@ -121,7 +159,7 @@ def run(ctx):
             if n_or <= 3:
                 rep.violation('oracle', {'property': 'C06', 'kind': 'str-round-trip', 'seed': ctx.seed, 'case': c['id'],
                                          'literal': c['lit'].decode('latin-1'), 'literal_hex': c['lit'].hex(), 'difference': bad, 'line': c['line']})
-        elif model is not None and got != model.get(c['id']):
+        elif model is not None and not c.get('edge') and got != model.get(c['id']):
             n_mm += 1
             if n_mm <= 3:
                 rep.violation('correspondence', {'property': 'C06', 'kind': 'model-vs-implementation', 'seed': ctx.seed, 'case': c['id'],
@@ -159,7 +197,7 @@ def run(ctx):
                                          'input': c['text'].decode('latin-1'), 'pretty': c['pretty'].decode('latin-1'),
                                          'listing_of_input': a, 'listing_of_pretty': b, 'line': c['line']})
     cov = {'evaluations': len(cases) + len(pcases), 'distinct_nontrivial': len(distinct) + n_pp,
-           'rule': 'literal values (booleans, strings over all bytes 1..255 with boosted quotes/newlines/backslashes, numbers with at most 6 significant digits spelled plain / with exponent / with leading dot / in hex / negated, nested arrays, code blocks over the live registry): g1 = literal; gx = str g1; g2 = call compile gx — the rendered g1 and g2 (instruction listings for code) must coincide, isEqualTo must hold, str must equal the expected text, the literal must denote the nearest single-precision value; the same run on the Lean model (str = model of to_string_sqf / reconstruct, compile = the C01 front-end model) must give the same observation; pretty printer: listing(pretty(text)) = listing(text); the text must equal the text the Lean model of prettify writes byte for byte, and that text must lex to the token sequence of the decorated tree the C06_pretty theorems speak about',
+           'rule': 'literal values (booleans, strings over all bytes 1..255 with boosted quotes/newlines/backslashes, numbers with at most 6 significant digits spelled plain / with exponent / with leading dot / in hex / negated, nested arrays, code blocks over the live registry): g1 = literal; gx = str g1; g2 = call compile gx — the rendered g1 and g2 (instruction listings for code) must coincide, isEqualTo must hold, str must equal the expected text, the literal must denote the nearest single-precision value; literals below the smallest normal single-precision value denote the nearest subnormal value or zero (oracle only); also two such round trips in one VM on values that differ in the case of their letters only; the same run on the Lean model (str = model of to_string_sqf / reconstruct, compile = the C01 front-end model) must give the same observation; pretty printer: listing(pretty(text)) = listing(text); the text must equal the text the Lean model of prettify writes byte for byte, and that text must lex to the token sequence of the decorated tree the C06_pretty theorems speak about',
            'samples': samples, 'oracle_failures': n_or, 'model_mismatches': n_mm, 'pretty_printed': n_pp, 'pretty_model_mismatches': n_pmm, 'pretty_text_vs_token_view_checked': n_ptie, 'pretty_text_vs_token_view_differences': n_ptie_bad, 'value_kinds': g.stats}
     return rep.finish(cov, ['numbers outside the at-most-6-significant-digit class are not generated (the property restricts to it)',
                             'binary rounding of arbitrary floats is not modelled; the decimal class is exact in the model'])
